@@ -4,12 +4,15 @@ import HailVerif.Proofs.RateLimit
 
 Subject: `HailVerif.RateLimit.step/run`, the model of `RateLimiter.__aenter__`
 (hail/python/hailtop/utils/rate_limiter.py) over an integer clock, whose steps are the atomic blocks between awaits
-(`attempt i` = one iteration of the `while True:` body by task `i`, `tick dt` = time passes); tied to the real class by
-`harness/props/c24.py` (real class under the virtual clock, admission times compared).
+(`attempt i` = one iteration of the `while True:` body by task `i`, `tick dt` = time passes, `exit/fail/cancel i` = an
+admitted task leaves the `async with` body normally / by an exception / by cancellation, `cancel i` of a task sleeping in
+`__aenter__` = it stops waiting); tied to the real class by `harness/props/c24.py` (real class under the virtual clock,
+admission times compared, with bodies, exceptions and cancel injection).
 
 The theorems quantify over ALL op lists (= all arrival times, all numbers of concurrent entrants, all orders in which
-tasks that wake at the same instant re-check, arbitrarily late wake-ups), every start time, every `count` and every
-window length `W`.  `s.log` is the list of all admission times.
+tasks that wake at the same instant re-check, arbitrarily late wake-ups, all body durations, and every way a body can end
+— including cancellation of admitted and of still-waiting tasks), every start time, every `count` and every window
+length `W`.  `s.log` is the list of all admission times: an admission counts whatever happens to its body afterwards.
 
 Which half-open direction?  BOTH hold: no window `(x - W, x]` and no window `[x, x + W)` ever contains more than
 `count` admissions.  Only the CLOSED window `[x, x + W]` can contain `count + 1` (the eviction test is
@@ -47,10 +50,75 @@ theorem admits_asap (h : run c (init t0) ops = .ok s) :
   intro i s' hs
   simp only [step] at hs
   split at hs
+  · simp at hs
   · split at hs
-    · simp at hs
+    · split at hs
+      · simp at hs
+      · exact body_admits_iff c s s' i inv hs
     · exact body_admits_iff c s s' i inv hs
-  · exact body_admits_iff c s s' i inv hs
+
+/-- An admission is final: no step ever shortens the admission log, and a task leaving the body — normally, by an
+exception or by cancellation — changes neither the log nor `_items` nor anybody's sleep (`__aexit__` gives nothing
+back). -/
+theorem admission_is_final (s s' : State) (op : Op) (h : step c s op = .ok s') :
+    (∃ new, s'.log = s.log ++ new) ∧
+    (∀ i, op = .exit i ∨ op = .fail i ∨ (op = .cancel i ∧ s.inBody.contains i = true) →
+      s'.log = s.log ∧ s'.items = s.items ∧ s'.sleepers = s.sleepers ∧ s'.now = s.now ∧ i ∉ s'.inBody) := by
+  have leave_case : ∀ i, leave s i = .ok s' →
+      s'.log = s.log ∧ s'.items = s.items ∧ s'.sleepers = s.sleepers ∧ s'.now = s.now ∧ i ∉ s'.inBody := by
+    intro i h; rw [leave_eq s s' i h]; simp
+  cases op with
+  | tick dt => simp [step] at h; subst h; exact ⟨⟨[], by simp⟩, by simp⟩
+  | attempt i =>
+    refine ⟨?_, by simp⟩
+    have hb : ∀ s', body c s i = .ok s' → ∃ new, s'.log = s.log ++ new := by
+      intro s' hb
+      simp only [body] at hb
+      split at hb
+      · simp at hb; subst hb; exact ⟨[s.now], rfl⟩
+      · split at hb
+        · simp at hb
+        · simp at hb; subst hb; exact ⟨[], by simp⟩
+    simp only [step] at h
+    split at h
+    · simp at h
+    · split at h
+      · split at h
+        · simp at h
+        · exact hb s' h
+      · exact hb s' h
+  | exit i =>
+    have := leave_case i h
+    refine ⟨⟨[], by simp [this.1]⟩, ?_⟩
+    intro j hj; simp at hj; subst hj; exact this
+  | fail i =>
+    have := leave_case i h
+    refine ⟨⟨[], by simp [this.1]⟩, ?_⟩
+    intro j hj; simp at hj; subst hj; exact this
+  | cancel i =>
+    simp only [step] at h
+    split at h
+    · have := leave_case i h
+      refine ⟨⟨[], by simp [this.1]⟩, ?_⟩
+      intro j hj; simp at hj; obtain ⟨rfl, _⟩ := hj; exact this
+    · next hnb =>
+      split at h
+      · simp at h; subst h
+        refine ⟨⟨[], by simp⟩, ?_⟩
+        intro j hj; simp at hj; obtain ⟨rfl, hc⟩ := hj; simp [hc] at hnb
+      · simp at h
+
+/-- A task cancelled while it still waits in `__aenter__` just stops waiting: it is gone from the sleepers, nothing else
+changes (it was never admitted, so it does not appear in the log). -/
+theorem cancelled_sleeper_leaves (s : State) (i : Nat) (hb : s.inBody.contains i = false)
+    (hs : (wakeOf i s.sleepers).isSome = true) :
+    step c s (.cancel i) = .ok { s with sleepers := removeSleeper i s.sleepers } ∧
+    ∀ p ∈ removeSleeper i s.sleepers, p.1 ≠ i := by
+  refine ⟨?_, ?_⟩
+  · simp only [step, hb, hs]; simp
+  intro p hp
+  have := (List.mem_filter.mp hp).2
+  simpa using this
 
 /-- The clock of the trace: admissions are never in the future and `_items` stays sorted (used by the eviction loop,
 which only looks at the head). -/
@@ -63,19 +131,23 @@ theorem trace_wellformed (h : run c (init t0) ops = .ok s) :
 each of the half-open windows `(0, 4]` and `[0, 4)`. -/
 example : ∃ s, run ⟨1, 4⟩ (init 0) [.attempt 0, .tick 4, .attempt 1] = .ok s ∧
     countCC s.log 0 4 = 2 ∧ countOC s.log 0 4 = 1 ∧ countCO s.log 0 4 = 1 :=
-  ⟨⟨4, [4], [], [0, 4]⟩, by decide⟩
+  ⟨⟨4, [4], [], [0, 4], [0, 1]⟩, by decide⟩
 
 /-! Non-vacuity. -/
 
 -- count 2, W 4: two admitted at 0, the third sleeps until 0 + 4; woken then, it is admitted at 4
-example : run ⟨2, 4⟩ (init 0) [.attempt 0, .attempt 1, .attempt 2] = .ok ⟨0, [0, 0], [(2, 0, 4)], [0, 0]⟩ := by decide
+example : run ⟨2, 4⟩ (init 0) [.attempt 0, .attempt 1, .attempt 2] = .ok ⟨0, [0, 0], [(2, 0, 4)], [0, 0], [0, 1]⟩ := by decide
 example : run ⟨2, 4⟩ (init 0) [.attempt 0, .attempt 1, .attempt 2, .tick 4, .attempt 2]
-    = .ok ⟨4, [4], [], [0, 0, 4]⟩ := by decide
+    = .ok ⟨4, [4], [], [0, 0, 4], [0, 1, 2]⟩ := by decide
 -- two sleepers woken at the same instant with room for one: the second goes back to sleep until the next slot
 example : run ⟨1, 4⟩ (init 0) [.attempt 0, .attempt 1, .attempt 2, .tick 4, .attempt 1, .attempt 2]
-    = .ok ⟨4, [4], [(2, 4, 8)], [0, 4]⟩ := by decide
+    = .ok ⟨4, [4], [(2, 4, 8)], [0, 4], [0, 1]⟩ := by decide
 -- a sleep never ends early; `count = 0` makes the code index an empty deque
 example : run ⟨1, 4⟩ (init 0) [.attempt 0, .attempt 1, .tick 3, .attempt 1] = .error .notDue := by decide
 example : run ⟨0, 4⟩ (init 0) [.attempt 0] = .error .indexError := by decide
+-- count 2, W 10: a and b admitted at 0; b is cancelled inside its body; c arriving at 1 must still wait until 10
+-- (the admission of b keeps counting), and a sleeper that is cancelled just disappears
+example : run ⟨2, 10⟩ (init 0) [.attempt 0, .attempt 1, .cancel 1, .tick 1, .attempt 2, .attempt 3, .cancel 3, .fail 0]
+    = .ok ⟨1, [0, 0], [(2, 1, 10)], [0, 0], []⟩ := by decide
 
 end HailVerif.C24
